@@ -62,7 +62,13 @@ fn mutate(rng: &mut Rng, text: &str, nrows: usize) -> String {
     let mut lines: Vec<Vec<String>> = text.split('\n').map(|l| l.split(' ').map(|t| t.to_string()).collect()).collect();
     for _ in 0..rng.range(1, 3) {
         let li = rng.below(lines.len());
-        match rng.below(9) {
+        match rng.below(11) {
+            // respell a number without changing its value: `usize::from_str` accepts a leading `+` and leading zeros
+            // (so "00" / "+0" are padding zeros and "+3" / "003" are the index 3)
+            9 | 10 => { if !lines[li].is_empty() { let t = rng.below(lines[li].len());
+                     if let Ok(v) = lines[li][t].parse::<usize>() {
+                         lines[li][t] = match rng.below(4) { 0 => format!("+{}", v), 1 => format!("0{}", v), 2 => format!("000{}", v), _ => format!("+00{}", v) };
+                     } } }
             0 => { lines.truncate(li.max(1)); }                                   // truncation at a line
             1 => { if !lines[li].is_empty() { let t = rng.below(lines[li].len()); lines[li].remove(t); } }
             2 => { if !lines[li].is_empty() { let t = rng.below(lines[li].len()); let x = lines[li][t].clone(); lines[li].insert(t, x); } }
@@ -83,7 +89,7 @@ fn mutate(rng: &mut Rng, text: &str, nrows: usize) -> String {
 }
 
 fn soup(rng: &mut Rng) -> String {
-    let toks = ["0", "1", "2", "3", "4", "5", "7", "10", "12", "100", "+2", "-1", "x", "1e3", "99999999999999999999999", " ", "\t", "\n", "\n", "\r\n",
+    let toks = ["0", "1", "2", "3", "4", "5", "7", "10", "12", "100", "+2", "-1", "x", "00", "+0", "000", "01", "+01", "-0", "1e3", "99999999999999999999999", " ", "\t", "\n", "\n", "\r\n",
         "\u{a0}", "\u{3000}", "\u{85}", "\u{200b}", "", "٣"];
     let n = rng.range(0, 40);
     let mut s = String::new();
